@@ -74,7 +74,7 @@ def rule_S_FIELDS(ctx):
     ctx.ob("S-FIELDS", "no statics / thread-locals in the parser modules", not tl, "%s" % tl[:4])
 
 
-def run(ctx):
+def rule_S_RESET(ctx):
     f = ctx.facts
     cg = mir.callgraph(f)
     # ---------------- S-RESET
@@ -151,6 +151,13 @@ def run(ctx):
                     ctx.fn(b)
     ctx.floor("loops that reuse a parser state", n_loop_sites, 1)
 
+
+
+def run(ctx):
+    f = ctx.facts
+    cg = mir.callgraph(f)
+    rule_S_RESET(ctx)
+    fields = [x["name"] for x in f.adts[ENUM_STATE]["variants"][0]["fields"]]
     # ---------------- S-ALIGN: one result per input, in input order
     ctx.rule("S-ALIGN", "parse_multi yields exactly one result per input at the input's own position: on every path around the input loop "
              "exactly one `results.push(from_parse((), &mut state))` is executed (no input is skipped, none contributes twice), and the "
